@@ -307,7 +307,11 @@ def maybe_replace_function_args(new_node, cur_ast_node, cst_idx, cst_list):
         )
         arg_start_idx: int = cst_list[cst_idx].value.find("(", function_name_starts_at)
         func_end: int = cst_list[cst_idx].value.rfind(":")
-        return_type: Optional[int] = cst_list[cst_idx].value.rfind("->", None, func_end)
+        return_type: Optional[int] = (
+            cst_list[cst_idx].value.rfind("->", None, func_end)
+            if new_node.returns is not None
+            else -1
+        )
         if return_type > -1:
             last_col = func_end
             func_end = return_type
